@@ -115,6 +115,20 @@ fn constant_clauses() -> Result<(), (String, String)> {
 pub fn run(run: &mut Run) -> PResult {
     run.rule = "all 2^32 words through BinaryCard::from_ckc (with the round trip back for the 52 cards); 0, all 64 single bits, all 2,016 two-bit values and seeded 64-bit values of every population count through CKCNumber::from_binary_card (with the round trip back); the 52 named bit constants, DECK, ALL, OVERFLOW and the 13 rank groups. Non-trivial = non-card words / sets that are not a single card bit (the negative space) plus the 52 cards; distinct = distinct words / values".into();
     super::regress::replay_dir(run, "C14", check_case)?;
+    {
+        let mut words: Vec<u32> = card::DECK.to_vec();
+        words.push(0);
+        for c in card::DECK {
+            words.extend([c | (1 << 29), c | (7 << 29), c ^ 1, c ^ 0x1000, c & !0xF000]);
+        }
+        super::common::disturbance_pass(run, &words, &|w| word_clause(*w), &|w| ("C14.word_to_bit".into(), json!({"word": hex(*w)}), hex(*w)))?;
+        let mut sets: Vec<u64> = vec![0, u64::MAX, (1 << 52) - 1];
+        for a in 0..64 {
+            sets.push(1u64 << a);
+            sets.push((1u64 << a) | (1u64 << ((a * 7 + 3) % 64)));
+        }
+        super::common::disturbance_pass(run, &sets, &|x| set_clause(*x), &|x| ("C14.bit_to_word".into(), json!({"set": format!("{:#x}", x)}), format!("{:#x}", x)))?;
+    }
     if let Err((sig, m)) = constant_clauses() {
         return run.violation("C14.constants", &sig, json!({"constant": sig}), &m);
     }
@@ -242,6 +256,9 @@ pub fn parse_set(v: &Value) -> Result<u64, String> {
 }
 
 pub fn check_case(clause: &str, case: &Value) -> Result<(), String> {
+    if clause.ends_with(".after_disturbance") {
+        return super::common::replay_after_disturbance(case, check_case);
+    }
     match clause {
         "C14.constants" => constant_clauses().map_err(|(_, m)| m),
         "C14.word_to_bit" => word_clause(engine::parse_word(&case["word"])?),
